@@ -480,6 +480,26 @@ func owsTrimmers(ctx *Ctx, r *Result) {
 			r.undecided("R14.5", name, "anchor not found")
 			continue
 		}
+		// a thin wrapper around a two-sided helper — trimOWS(s, n, fromStart) with
+		// the side as a constant flag: the helper's paths for that flag value
+		flagParam, flagVal := "", false
+		if !hasLoop(fn) {
+			if ps := p.NewExec(nil).Summarize(fn); len(ps) == 1 && len(ps[0].Rets) == 2 && ps[0].Rets[0].Op == "ext" && ps[0].Rets[0].Args[0].Op == "call" {
+				c := ps[0].Rets[0].Args[0]
+				for _, g := range p.Funcs {
+					if funcName(g) != c.Name || len(g.Params) != len(c.Args) || len(loopHeaders(g)) != 1 {
+						continue
+					}
+					passes := len(c.Args) >= 2 && c.Args[0].Key() == "param:"+fn.Params[0].Name() && c.Args[1].Key() == "param:"+fn.Params[1].Name()
+					for k, a := range c.Args {
+						if passes && k >= 2 && (a.IsConst("true") || a.IsConst("false")) && flagParam == "" {
+							flagParam, flagVal = "param:"+g.Params[k].Name(), a.IsConst("true")
+							fn = g
+						}
+					}
+				}
+			}
+		}
 		x := p.NewExec(p.InlineAllPolicy)
 		paths := x.Summarize(fn)
 		r.Paths += len(paths)
@@ -489,6 +509,11 @@ func owsTrimmers(ctx *Ctx, r *Result) {
 		for _, pa := range paths {
 			if pa.End != "return" || len(pa.Rets) != 2 || pa.Rets[1].IsConst("false") {
 				continue
+			}
+			if flagParam != "" {
+				if v := pa.Val(flagParam); v != 0 && (v == 1) != flagVal {
+					continue // the other side's paths
+				}
 			}
 			n++
 			if !pa.Rets[1].IsConst("true") {
@@ -590,7 +615,13 @@ func trimComposition(ctx *Ctx, r *Result) {
 		r.undecided("R14.7", "TrimOWS", "anchor not found")
 		return
 	}
-	x := p.NewExec(nil)
+	// (the two one-sided trimmers stay opaque, whatever they are made of: R14.5 is about them)
+	x := p.NewExec(func(f *ssa.Function) Policy {
+		if f == lf || f == rf {
+			return PolPure
+		}
+		return p.DefaultPolicy(f)
+	})
 	paths := x.Summarize(fn)
 	r.Paths += len(paths)
 	r.fn(funcName(fn))
